@@ -34,10 +34,7 @@ Print Assumptions C05_never_ahead_of_dependencies.
 (* complete sweep (finite domain, bound in the statement): 5040 + 720 arrival orders *)
 Theorem C05_final_state_is_spec_partial :
   forall order, In order (C05.perms [1; 2; 3; 4; 5; 6; 7]%N ++ C05.perms [2; 3; 4; 5; 6; 7]%N) -> C05.agrees C05.w7 order = true.
-Proof.
-  intros order H. destruct C05.w7_all_orders as [A B]. rewrite forallb_forall in A, B.
-  apply in_app_or in H as [H|H]; [apply A|apply B]; exact H.
-Qed.
+Proof. exact C05.w7_sweep. Qed.
 Print Assumptions C05_final_state_is_spec_partial.
 
 Example C05_nonvacuous :
